@@ -441,6 +441,15 @@ func (w *nodeWorld) buildTxs(a *app.Haqq, ctx sdk.Context, tok string) [][]byte 
 		return [][]byte{w.cosmosTx(a, ctx, ki(1), stakingtypes.NewMsgUndelegate(w.acc(ki(1)), w.val2Addr, coin(f[2])[0]))}
 	case "mredel2":
 		return [][]byte{w.cosmosTx(a, ctx, ki(1), stakingtypes.NewMsgBeginRedelegate(w.acc(ki(1)), w.val2Addr, w.valAddr, coin(f[2])[0]))}
+	case "pcsel":
+		// a call to a stateful precompile with a selector its ABI does not know: the transaction is included with a VM
+		// error, whose text is part of the transaction's result
+		to := stk
+		if f[2] == "distribution" {
+			d, _ := distrpc.NewPrecompile(puppetZeroDistr())
+			to = d.Address()
+		}
+		return [][]byte{w.ethTx(a, ctx, ki(1), &to, nil, append([]byte{0xde, 0xad, 0xbe, 0xef}, make([]byte, 64)...), 200_000, 0)}
 	case "pcdeleg2":
 		// key k calls the staking precompile directly: delegate(k, second validator, amount) — the amount may be 0,
 		// which the native message refuses in ValidateBasic (messages that arrive through a precompile never pass it)
@@ -735,7 +744,7 @@ func nodeGen(r *rand.Rand, tier string, prop string) []Case {
 		}
 		c := Case{fmt.Sprintf("world # seed=%d", wseed)}
 		c = append(c, "blk # dt=6 txs=deploy.0|eth.1.5|bhdeploy.1")
-		c = append(c, "blk # dt=6 txs=fundpup.0.1000000000000000|approve.1|approve.2|pcdeleg2.0.0|pcdeleg2.4.0|mdeleg.3.100000000000000000|mdeleg.1.100000000000000000|mdeleg.2.100000000000000000")
+		c = append(c, "blk # dt=6 txs=fundpup.0.1000000000000000|approve.1|approve.2|pcdeleg2.0.0|pcdeleg2.4.0|pcsel.1.staking|pcsel.2.distribution|pcsel.3.staking|mdeleg.3.100000000000000000|mdeleg.1.100000000000000000|mdeleg.2.100000000000000000")
 		c = append(c, "blk # dt=6 txs=vests.4.2.30000000000000000000|vest.4.5.9000000000000000000000|vestc.4.3.50000000000000000|bhdeploy.3|bhash.1.1|codeless.2|mdeleg2.1.300000000000000000|mdeleg2.3.200000000000000000")
 		if prop == "C15" {
 			// a contract that ignores failures forwards a delegation of more than the origin holds: the call fails inside the
